@@ -7,7 +7,10 @@ CHECK = dict(
          "C08_default_is_fresh (lookup_default_value, the value __init__ assigns and __delattr__/reset install, is fresh) "
          "and C08_defaults_isolated / C08_reset_keeps_defaults_isolated (after any history of construction, assignment, "
          "deletion, deepcopy, copy-on-write helpers and in-place with/reset/update/transform the class-level default "
-         "objects are unchanged and referenced by no other object) are proved in Coq. The final-heap form of "
+         "objects are unchanged and referenced by no other object) and C08_inplace_confined_to_receiver (an assignment, "
+         "deletion or attribute-level helper called with _inplace=True, reset/transform(_inplace=True), update(_inplace=True) "
+         "without replacement value writes no pre-existing cell other than the receiver's own, whatever the outcome) are "
+         "proved in Coq. The final-heap form of "
          "C08_reset_fresh and peer disjointness under nested in-place mutation are partial (see docs/C08.md). The "
          "correspondence runs histories mixing construction, in-place mutation, del / reset_<a> / reset and fresh "
          "instances on every default form of the class grammar (incl. mutable overrides in a spec subclass) and evaluates "
